@@ -175,6 +175,28 @@ def run(rep, props, replay=None):
                        ("LP-default", dict(method_smoothing="LP"))]:
             compare(rep, f"Irregular.mean/{vn}", lambda S, kw=kw: irr.mean(points=pts(S), **kw).values, Q, subs, sc, info,
                     sorted_only=True)
+        if i % 2 == 1:
+            covsubs = [(n_, s_) for n_, s_ in subs if n_ in ("sub-range", "thinned", "right-part", "interior")]
+            for vn, kw in [("LP", dict(method_smoothing="LP", bandwidth=bw, kwargs_center=dict(bandwidth=bw)))]:
+                def fcov_i(S, kw=kw):
+                    return np.asarray(irr.covariance(points=pts(S), **kw).values)[0]
+                try:
+                    with warnings.catch_warnings():
+                        warnings.simplefilter("ignore")
+                        full = fcov_i(Q)
+                    for name, S in covsubs:
+                        with warnings.catch_warnings():
+                            warnings.simplefilter("ignore")
+                            part = fcov_i(S)
+                        idx = [int(np.flatnonzero(Q == s_)[0]) for s_ in S]
+                        rep.case(("icov", vn, name, key[2][:8], S.tobytes()), kind=f"Irregular.covariance/{vn}/{name}")
+                        dev = np.abs(part - full[np.ix_(idx, idx)])
+                        if not np.all(np.isfinite(dev)) or dev.max() > 1e-8 * sc * sc:
+                            rep.violation(f"Irregular.covariance/{vn}: the value at a pair of locations changes with the other requested "
+                                          f"locations (query set '{name}', max deviation {np.nanmax(dev):.3g})",
+                                          {**info, "query_full": C.hexf(Q), "query_sub": C.hexf(S), "mask": masks.astype(int).tolist()})
+                except Exception as e:  # noqa: BLE001
+                    rep.notes.append(f"Irregular.covariance/{vn} raised {type(e).__name__}: {e}"[:200])
         # ---- 2-D dense smoothing: product query grids, sub-grids
         if i % 4 == 0:
             g2 = np.linspace(0, 2, 7)
